@@ -53,6 +53,15 @@ CLAIMED = {
          "tested numerically (partial); that falsifier found that twoStepFresnel returns a point-reflected field (known finding)."),
    ref="5 C11",
    note="Hand model tied by correspondence; Reals axioms; physics clauses (Gaussian beam, Airy, propagator agreement) not proved."),
+ "C14": dict(
+   technique="Coq proof in exact arithmetic over a hand model + bit-exact vm_compute correspondence",
+   text=("Machine-checked proofs that circle is exactly the indicator of pixel centres (half-integer coordinates from the middle or corner) "
+         "within distance r, hence nested in r, symmetric under the square's symmetries when centred, translating with integer shifts; that "
+         "sub-aperture selection keeps exactly cells with mean >= threshold and shrinks monotonically; that fill factors equal "
+         "computeFillFactor when the size is a multiple of the count; and that scatter-then-gather is the identity (any element type). The "
+         "same definitions run at binary64 and are compared bit-exactly with the implementation, including exact ties distance == radius."),
+   ref="5 C14",
+   note="Real-arithmetic theorems; rounding of r*r and x-c for non-dyadic values not verified (bit-exact correspondence covers it empirically); area -> pi r^2 only tested."),
 }
 NOT_YET = {}
 ALL = ["C%02d" % i for i in range(1, 21)]
